@@ -52,6 +52,10 @@ var c14PatternLists = []string{
 	"other.example.org/x,c?rp.example.com/,x.internal.*",
 	"x.internal.example/tool\\,corp.example.com,[,?.internal.example/tool",
 	"*.example.com/nothing/here,corp.example.[c]om,[^a-w].internal.example",
+	// no glob character anywhere: plain names, with and without the trailing slash the documentation allows
+	"corp.example.com,x.internal.example/tool",
+	"corp.example.com/,x.internal.example/tool/",
+	"other.example.org/,x.internal.example/,corp.example.com/",
 }
 
 func c14PatternsFor(c *mon.Ctx, i int) string {
